@@ -309,7 +309,7 @@ class FaultFamily(Family):
             maxk = 3 if lay.has_varying(L) else 2
             scripts = []
             for _ in range(self.nbase * mult):
-                for base, st in (gen.gen_special(L, K, rng, rng.randrange(5, 14)), gen.gen_elem(L, K, rng),
+                for base, st in (gen.gen_special(L, K, rng, rng.randrange(5, 14)), gen.gen_elem(L, K, rng, moved_targets=True),
                                  gen.gen_history(L, K, rng, rng.randrange(4, 10))):
                     base = list(base)
                     while base and (base[-1].startswith("destroy") or base[-1].startswith("edestroy")):
@@ -317,7 +317,35 @@ class FaultFamily(Family):
                     for v in gen.fault_variants(base, maxk):
                         scripts.append((gen.script_id(v), v, None))
                         self.add_stats({"fault-at-" + v[len(v) - 9 - (1 if v[-9].split()[0] == v[-10].split()[0] else 0)].split()[0]: 1})
+            for v in gen.gen_fault_moved_from(L, K, rng):
+                scripts.append((gen.script_id(v), v, None))
+                self.add_stats({"fault-assign-into-moved-from": 1})
             jobs.append(Job(L, K, scripts, tag="fault"))
+        return jobs
+
+
+class SharedFamily(Family):
+    """const operations on write-protected shared vectors, single threaded and from several
+    threads; thorough tier adds a ThreadSanitizer build (C19)"""
+
+    def __init__(self, nlists=14, nscripts=8):
+        super().__init__()
+        self.nlists, self.nscripts = nlists, nscripts
+
+    def jobs(self, rng, tier):
+        jobs = []
+        Ls = self.lists(rng, tier, self.nlists)
+        for li, L in enumerate(Ls):
+            K = [K_DEFAULT, K_PMR, (1, 1, 1, 0, 1)][li % 3]
+            scripts = []
+            for _ in range(self.nscripts * (1 if tier == "quick" else 3)):
+                lines, st = gen.gen_shared(L, K, rng, nthreads=4 if tier == "quick" else 16)
+                self.add_stats(st)
+                scripts.append((gen.script_id(lines), lines, None))
+            jobs.append(Job(L, K, scripts, tag="shared"))
+            if tier != "quick" and li % 8 == 0:
+                # supporting evidence only: the same scripts under ThreadSanitizer
+                jobs.append(Job(L, K, scripts[:4], tag="shared-tsan", cxx_extra=["-fsanitize=thread", "-g", "-O1"]))
         return jobs
 
 
@@ -436,3 +464,4 @@ FAMILIES["C11"] = ProxyFamily()
 FAMILIES["C12"] = ElemFamily()
 FAMILIES["C15"] = ConstructFamily()
 FAMILIES["C17"] = FaultFamily()
+FAMILIES["C19"] = SharedFamily()
